@@ -63,8 +63,20 @@ def modname_of(file):
     return m
 
 
+_found = {}
+
+
 def find(file, qual) -> FuncSrc:
     text, tree = parse_file(file)
+    k = (file, qual, id(tree))
+    if k in _found:
+        return _found[k]
+    fs = _find(file, qual, text, tree)
+    _found[k] = fs
+    return fs
+
+
+def _find(file, qual, text, tree) -> FuncSrc:
     node = tree
     cls = None
     for part in qual.split('.'):
